@@ -176,6 +176,10 @@ func (d *Directory) AddTimeBucket(tbk *io.TimeBucketKey, f *io.TimeBucketInfo) (
 		}
 	}
 
+	if err = f.CheckStorable(); err != nil {
+		return fmt.Errorf("invalid schema for time bucket %s: %w", tbk.GetItemKey(), err)
+	}
+
 	dirname := d.GetPath()
 	for i, dataDirName := range datakeySplit {
 		subdirname := filepath.Join(dirname, dataDirName)
